@@ -35,6 +35,6 @@ git apply -R "$SD/patch.diff" >>"$LOG" 2>&1
 echo "--- demo without change" >>"$LOG"
 ( timeout 600 bash -c "$DEMO" ) >>"$LOG" 2>&1; d0=$?
 cd /; git -C /repo worktree remove --force "$S" >/dev/null 2>&1; rm -rf /verif/.work/alt-$(echo "$S" | md5sum | cut -c1-10)
-det=MISSED; [ $c -eq 1 ] && det=DETECTED; [ $c -ge 2 ] && det=HARNESS-ERROR($c)
+det=MISSED; [ $c -eq 1 ] && det=DETECTED; [ $c -ge 2 ] && det="HARNESS-ERROR-$c"
 sig=$(grep -m1 "signature:" "$SD/check.out" | sed 's/.*signature: //' | cut -c1-90)
 echo "$ID prop=$PROP apply=$r_apply build=$r_build tests=$r_tests demo_with_change_exit=$d1 demo_without_exit=$d0 check=$det $sig"
